@@ -512,10 +512,13 @@ def _freq_type(name):
     if not _ft:
         with open(os.path.join(cbuild.L23, SYSINFO_H), encoding="utf-8", errors="replace") as f:
             for n, text in slice_macros(f.read(), "FREQ_TYPE_"):
-                try:
-                    _ft[n] = int(text.split()[2], 0)
-                except (ValueError, IndexError):
-                    pass
+                # the value of the macro's replacement list as a constant expression (0x08, (1 << 3), 1 << 3, ...)
+                expr = " ".join(text.split()[2:]).split("/*")[0].split("//")[0].strip()
+                if expr and re.fullmatch(r"[0-9a-fA-FxX<>|&()+\s]+", expr):
+                    try:
+                        _ft[n] = int(eval(expr, {"__builtins__": {}}, {}))
+                    except Exception:
+                        pass
     if name not in _ft:
         raise HarnessError("C20: %s is not a plain integer macro in %s" % (name, SYSINFO_H))
     return _ft[name]
